@@ -6,5 +6,7 @@ patch="$1"; prop="$2"; tier="${3:-quick}"
 wt="/tmp/mutcheck.$$"
 git -C /repo worktree add -q --detach "$wt" || exit 3
 git -C "$wt" apply "$patch" || { git -C /repo worktree remove --force "$wt"; exit 3; }
-cd /verif && PYTHONPATH="$wt/Lib" ./check "$prop" --tier "$tier" 2>&1 | tail -4
+cd /verif && cp "evidence/$prop.json" "/tmp/mutcheck.$$.ev" 2>/dev/null   # evidence belongs to runs on the unchanged tree
+PYTHONPATH="$wt/Lib" ./check "$prop" --tier "$tier" 2>&1 | tail -4
+[ -f "/tmp/mutcheck.$$.ev" ] && mv "/tmp/mutcheck.$$.ev" "evidence/$prop.json"
 git -C /repo worktree remove --force "$wt"
